@@ -502,7 +502,9 @@ pub(crate) enum ShareKind {
 pub(crate) fn c11_history(kind: ShareKind, nops: usize) {
   let cold = e::choose_bool();
   let cold_script = if cold { Some(draw_script(2, false)) } else { None };
-  e::note(format!("{:?} over {} source", kind, if cold { "cold synchronous" } else { "hot" }));
+  // hot source: a parked `create` handle, or a Subject (which consults is_finished / is_closed of its subscribers)
+  let subject_src = !cold && e::choose_bool();
+  e::note(format!("{:?} over {} source", kind, if cold { "cold synchronous" } else if subject_src { "hot (Subject)" } else { "hot (create handle)" }));
   const NS: usize = 3;
   let probes: Vec<Probe> = (0..NS).map(|_| fresh_probe()).collect();
   let mut used = 0usize;
@@ -525,6 +527,14 @@ pub(crate) fn c11_history(kind: ShareKind, nops: usize) {
     ShareKind::PublishLocal | ShareKind::ShareLocal => {
       let src: Obs = match &cold_script {
         Some(s) => cat::cold(s.items.clone(), s.term.clone(), 0),
+        None if subject_src => {
+          let sj = cat::hot_kind(0, 1);
+          observable::defer(move || {
+            world::bump(0);
+            sj.clone()
+          })
+          .box_it()
+        }
         None => observable::create(|s: cat::Handle| {
           world::bump(0);
           cat::HANDLES.with(|h| h.borrow_mut().push((0, s)))
@@ -543,6 +553,14 @@ pub(crate) fn c11_history(kind: ShareKind, nops: usize) {
     ShareKind::ShareThreads => {
       let src: ObsT = match &cold_script {
         Some(s) => cat::cold_t(s.items.clone(), s.term.clone(), 0),
+        None if subject_src => {
+          let sj = cat::hot_kind_t(0, 1);
+          observable::defer(move || {
+            world::bump(0);
+            sj.clone()
+          })
+          .box_it()
+        }
         None => observable::create(|s: cat::HandleT| {
           world::bump(0);
           cat::HANDLES_T.with(|h| h.borrow_mut().push((0, s)))
@@ -639,20 +657,8 @@ pub(crate) fn c11_history(kind: ShareKind, nops: usize) {
         let taps_before = world::counter(1);
         let had_subscribers = active.iter().any(|a| *a);
         let delivered = match kind {
-          ShareKind::ShareThreads => match cat::handle_t_nth(0, 0) {
-            Some(mut h) => {
-              feed_t(&mut h, &ev);
-              true
-            }
-            None => false,
-          },
-          _ => match cat::handle_nth(0, 0) {
-            Some(mut h) => {
-              feed(&mut h, &ev);
-              true
-            }
-            None => false,
-          },
+          ShareKind::ShareThreads => cat::feed_hot_t(0, &ev),
+          _ => cat::feed_hot(0, &ev),
         };
         if delivered && !src_done {
           for i in 0..NS {
